@@ -150,6 +150,13 @@ type tagDummy struct {
 }
 
 func importField(dummyField *fieldDummy, index string) (*field.Spec, error) {
+	if dummyField == nil {
+		return nil, fmt.Errorf("missing definition for field: %s", index)
+	}
+	if dummyField.Length < 0 {
+		return nil, fmt.Errorf("negative length: %d for field: %s", dummyField.Length, index)
+	}
+
 	fieldSpec := &field.Spec{
 		Length:      dummyField.Length,
 		Description: dummyField.Description,
@@ -209,6 +216,15 @@ func importField(dummyField *fieldDummy, index string) (*field.Spec, error) {
 
 	}
 	fieldSpec.DisableAutoExpand = dummyField.DisableAutoExpand
+
+	// the composite constructor panics on an invalid spec: report it as an
+	// error of the document instead
+	if dummyField.Type == "Composite" {
+		if err := fieldSpec.Validate(); err != nil {
+			return nil, fmt.Errorf("invalid composite spec for field: %s: %w", index, err)
+		}
+	}
+
 	return fieldSpec, nil
 }
 
